@@ -870,6 +870,9 @@ class Lower:
             if args:
                 raise Untranslatable(m)
             return s, t
+        if t == "N" and m in ("min", "max") and len(args) == 1:
+            a, ta = self.ex(args[0], env, "N")
+            return f"(Nat.{m} {s} {a})", "N"
         if t == "S":
             if m in self.SC1 and not args:
                 return f"({self.SC1[m]} {s})", "S"
